@@ -224,6 +224,23 @@ def run(tier, seed, stop_first=False):
             nontrivial.add(('con', ci))
         if real != expected:
             report('constructor:' + nm.split('/')[0], i=-2, j=ci, s=str(con), t=str(sup), real=real, declarative=expected)
+    # the judgement reads the class hierarchy as it is NOW: a hierarchy edit behind a generic supertype (the way
+    # TypeUpdater re-parents classes in place while a program is being generated) must be seen by the next query
+    evals += 1
+    hd = tp.SimpleClassifier('HD', [kt.Any])
+    he = tp.SimpleClassifier('HE', [kt.Any])
+    hc = tp.SimpleClassifier('HC', [hd])
+    ht = tp.TypeParameter('T')
+    hfoo = tp.TypeConstructor('HFoo', [ht], [hc])
+    ha = tp.SimpleClassifier('HA', [hfoo.new([kt.Integer])])
+    first = bool(ha.is_subtype(hd))
+    # (an instantiation holds its own copy of the declared supertypes: the edit is made on the object reachable from HA)
+    reach_c = ha.supertypes[0].supertypes[0]
+    reach_c.supertypes[:] = [he]            # class HC : HE  (was: HC : HD)
+    after_d, after_e = bool(ha.is_subtype(hd)), bool(ha.is_subtype(he))
+    if not first or after_d or not after_e:
+        report('hierarchy-change', i=-3, j=0, s='HA : HFoo<Int>, HFoo<T> : HC, HC : HD -> HC : HE', t='HD / HE',
+               real=(first, after_d, after_e), declarative=(True, False, True))
     # bottom
     for nothing in (kt.Nothing, tp.Nothing):
         for j, t in enumerate(universe):
@@ -242,6 +259,12 @@ def run(tier, seed, stop_first=False):
 def replay(fi):
     u = build()
     universe, norm, sub, tp, kt = u['universe'], u['norm'], u['sub'], u['tp'], u['kt']
+    if fi['i'] == -3:
+        r = run('quick', 0)
+        bad = [v for v in r.get('violations', []) if v['check'] == fi['check']]
+        for v in bad:
+            print('%s: real %r, declarative %r' % (v['check'], v['real'], v['declarative']))
+        return not bad
     if fi['i'] == -2:
         nm, con, sup, expected = u['con_cases'][fi['j']]
         real = bool(con.is_subtype(sup))
